@@ -169,3 +169,65 @@ by move=> /seedE -> /seedE ->.
 Qed.
 
 End VRFProof.
+
+(* ---- histories with restarts ---- *)
+Section VRFHist.
+Variable F : fieldType.
+Variables G1 G2 GT : lmodType F.
+Variable g2 : G2.
+Variable M : Type.
+Variable H : M -> G1.
+Variable e : G1 -> G2 -> GT.
+Variable Seed : Type.
+Variable seed_of : G1 -> Seed.
+Hypothesis e_linl : forall a x y, e (a *: x) y = a *: e x y.
+Hypothesis e_linr : forall a x y, e x (a *: y) = a *: e x y.
+Hypothesis e_inj : forall x y, e x g2 = e y g2 -> x = y.
+Variable css : seq (seq F).
+Variable members : seq F.
+Variable t : nat.
+Hypothesis t_pos : (0 < t)%N.
+Hypothesis members_nz : 0 \notin members.
+Hypothesis polys_t : all (fun cs => size cs <= t)%N css.
+
+Let mpks := [seq dkg_mpk g2 cs | cs <- css].
+
+(* after any history the admitted shares verify against the CURRENT message, one per miner, <= t *)
+Lemma vrf_hrun_inv (s : M * seq (vrf_ev G1)) (hs : seq (vrf_hev G1 M)) :
+  vrf_inv g2 H e css members s.1 t s.2 ->
+  let s' := vrf_hrun g2 H e t mpks members s hs in
+  vrf_inv g2 H e css members s'.1 t s'.2.
+Proof.
+elim: hs s => [|h hs IH] s inv //=; apply: IH.
+case: h => [ev|m'] /=; last exact: vrf_inv_nil.
+exact: vrf_add_inv.
+Qed.
+
+Lemma vrf_hist_seed (m0 : M) (hs : seq (vrf_hev G1 M)) (sd : Seed) :
+  let s' := vrf_hrun g2 H e t mpks members (m0, [::]) hs in
+  vrf_seed seed_of t s'.2 = Some sd -> sd = seed_of (dkg_sign H (dkg_gsk css) s'.1).
+Proof.
+move=> s'.
+have /and3P[av uq _] : vrf_inv g2 H e css members s'.1 t s'.2.
+  by apply: vrf_hrun_inv; apply: vrf_inv_nil.
+case sz: (t <= size s'.2)%N.
+  by rewrite (vrf_seed_of_verified seed_of e_linl e_linr e_inj t_pos members_nz polys_t av uq sz) => -[].
+by rewrite vrf_below_t_no_seed_state // ltnNge sz.
+Qed.
+
+(* two miners, any two histories of shares and restarts: if they end under the same message and
+   both have a seed, the seeds are equal (the hash of the group signature on that message) *)
+Lemma vrf_hist_seed_agreement (m1 m2 : M) (hs1 hs2 : seq (vrf_hev G1 M)) (sd1 sd2 : Seed) :
+  let s1 := vrf_hrun g2 H e t mpks members (m1, [::]) hs1 in
+  let s2 := vrf_hrun g2 H e t mpks members (m2, [::]) hs2 in
+  s1.1 = s2.1 ->
+  vrf_seed seed_of t s1.2 = Some sd1 -> vrf_seed seed_of t s2.2 = Some sd2 ->
+  sd1 = sd2 /\ sd1 = seed_of (dkg_sign H (dkg_gsk css) s1.1).
+Proof. by move=> s1 s2 eqm /vrf_hist_seed -> /vrf_hist_seed ->; rewrite eqm. Qed.
+
+(* a restart empties the admitted set *)
+Lemma vrf_restart_empties (s : M * seq (vrf_ev G1)) (m' : M) :
+  vrf_hstep g2 H e t mpks members s (VRestart G1 m') = (m', [::]).
+Proof. by []. Qed.
+
+End VRFHist.
